@@ -16,7 +16,7 @@ RULE = ("Every program of the E1 with-program space (AST size <= 3 quick / 4 tho
         "{coroutine, generator, async generator} probed from a plain function called by the innermost link (extract(root), "
         "extract(each link), extract_since(None)), plus blocked/dead threads, greenlets (3.12 leg) and custom stack items "
         "with/without frames and with recorded errors, and a task tree whose outermost frame holds child tasks (all with_contexts / recurse_child_tasks combinations passed to both functions). Checks: origin None or weak-referenceable with "
-        "extract_outermost(origin).pyframe is the frame; frames found inside a suspended generator-like carry it as origin; "
+        "extract_outermost(origin).pyframe is the frame (the same origins with with_contexts=False); frames found inside a suspended generator-like carry it as origin; "
         "extract_outermost(x) == extract(x).frames[0] field by field, raises iff there are no frames, re-raising the recorded "
         "error. evaluations = frames checked + extract_outermost comparisons; distinct_nontrivial = distinct (spec, position) "
         "or scenario ids.")
@@ -119,6 +119,17 @@ def observe_suspended(spec, k):
         for f in st.frames:
             nchecks += 1
             check_origin(f, ch.owner_of(f.pyframe), problems, "suspended")
+        # origins do not depend on whether contexts were asked for
+        with warnings.catch_warnings():
+            warnings.simplefilter("ignore")
+            st_nc = stackscope.extract(ch.root, with_contexts=False)
+        nchecks += 1
+        if [f.pyframe for f in st_nc.frames] != [f.pyframe for f in st.frames]:
+            problems.append("suspended: with_contexts=False gives other frames")
+        else:
+            for f, g in zip(st.frames, st_nc.frames):
+                if f.origin is not g.origin:
+                    problems.append("suspended: frame %s has origin %r with contexts but %r with with_contexts=False" % (f.funcname, f.origin, g.origin))
         return "obs", problems, nchecks
     finally:
         ch.close()
@@ -224,7 +235,7 @@ def observe_running(case):
 # ------------------------------------------------------------------ misc scenarios
 def misc_scenarios():
     return ["thread_blocked", "thread_dead", "thread_unstarted", "custom_leaf", "custom_raises", "custom_two_raises", "custom_iter_two_errors", "custom_frames_then_raises",
-            "custom_frames", "custom_empty", "greenlet_suspended", "greenlet_dead", "gen_unstarted", "none", "int", "task_tree"]
+            "custom_frames", "custom_empty", "greenlet_suspended", "greenlet_dead", "gen_unstarted", "none", "int", "task_tree", "late_glue"]
 
 
 _custom = {}
@@ -344,6 +355,47 @@ def observe_misc(name):
             st = both(g, name)
             if st.frames:
                 problems.append("dead greenlet has frames")
+        return "ok", problems, n[0]
+    if name == "late_glue":
+        # a stack-item type whose module brings its own glue and appears in sys.modules only now: extract_outermost is the
+        # FIRST thing asked of stackscope afterwards, and must already agree with what extract says next
+        import types as _types
+        serial = len([k for k in sys.modules if k.startswith("vmod_c16_")])
+        modname = "vmod_c16_%d" % serial
+        mod = _types.ModuleType(modname)
+
+        class Job(object):
+            def __init__(s, gen):
+                s.gen = gen
+
+        def install():
+            @stackscope.unwrap_stackitem.register(Job)
+            def _(job):
+                return job.gen
+        mod.Job = Job
+        mod._stackscope_install_glue_ = install
+        a = g1()
+        next(a)
+        job = Job(a)
+        sys.modules[modname] = mod
+        try:
+            with warnings.catch_warnings():
+                warnings.simplefilter("ignore")
+                try:
+                    fo = stackscope.extract_outermost(job)
+                    exc = None
+                except Exception as ex:
+                    fo, exc = None, ex
+                st = stackscope.extract(job)
+        finally:
+            del sys.modules[modname]
+        n[0] += 1
+        if [f.pyframe for f in st.frames] != [a.gi_frame] or st.error is not None:
+            problems.append("late_glue: extract gives %r" % (st,))
+        elif fo is None:
+            problems.append("late_glue: extract_outermost raised %r although extract (asked right afterwards) has frames" % (exc,))
+        else:
+            problems.extend("late_glue: extract_outermost vs extract[0]: %s" % p for p in frame_eq(fo, st.frames[0]))
         return "ok", problems, n[0]
     if name == "task_tree":
         # the outermost frame itself holds a context with child tasks (two levels of them): the options decide what the
